@@ -42,6 +42,8 @@ EXPLANATION = (
     "dominated by the Some edge of last_ia()/first_ia() of the segment. "
     "(DROP) the closure that converts solutions in combine_with_weight_fn returns flatten(ok(path(s)))."
 )
+EXPLANATION_ADD = ' Additions: (ORDER-dedup) loop filter before de-duplication, which is last; (IDX-peer) the peer index is the position in the unadapted peer_entries.'
+EXPLANATION = EXPLANATION + EXPLANATION_ADD
 RESIDUAL = [
     "the degree of the polynomial bound (number of solutions is bounded by |edges|^3, not computed)",
     "that returned paths encode, parse back and are consistent with their metadata (values; C03/C04)",
